@@ -197,6 +197,7 @@ def run(ctx):
     chk.rule("R09.a", "no write to dispatcher/schedule/argument state precedes an explicit raise on any path of Dispatcher.dispatch")
     chk.rule("R09.b", "no observer notification on a raising path")
     chk.rule("R09.c", "environment step: nothing is written (env, dispatcher, observers) before a raise; delegates before touching own state")
+    chk.rule("R09.f", "no truthiness test on a job / machine / operation id (0 is a valid id; `if not machine_id` treats it as missing)")
     chk.rule("R09.e", "request parameters of dispatch are rebound only under `<param> is None` (documented default), never replaced otherwise")
     chk.rule("R09.d", "the documented rejections exist as raising guards: not-ready operation, ineligible machine, finished job")
 
@@ -297,6 +298,13 @@ def run(ctx):
                         "another one and the request is accepted instead of rejected",
                         loc=dispatch.loc(n),
                     )
+
+    # ---------------------------------------------------------------- R09.f
+    from .c16 import falsy_id_tests
+
+    n_t = falsy_id_tests(ctx, "R09.f", lambda fi: not fi.module.name.startswith("job_shop_lib.graphs"))
+    if not any(i["rule"] == "R09.f" for i in chk.instances):
+        chk.ok("R09.f", "job_shop_lib (outside graphs)", "", f"{n_t} boolean tests inspected, none on a job/machine/operation id")
 
     nxt = repo.need_method(disp, "next_operation")
     np_ = eng.paths(nxt, disp)
